@@ -212,20 +212,21 @@ not they are used). -/
 def compiledFields : List Fld :=
   [.context, .package, .interface, .type, .method, .field, .receiver, .valueMatch]
 
-/-- Outcome of running Go code that may dereference a nil `*regexp.Regexp`. -/
+/-- Outcome of running the Go code (`panic` is kept for the behaviour before the repair of F13: no model function
+produces it any more). -/
 inductive Outcome where
   | val (b : Bool)
   | panic
   | unsupported
   deriving DecidableEq, Repr
 
-/-- one conjunct `(regex.MatchString(cid.f)) || (spec.e == "")` — the regex is evaluated first; a
-pattern that failed to compile left a nil regex, whose `MatchString` panics.
-`res` gives the compiled regex of every field (`compileRegexes`). -/
+/-- one conjunct `(matchRegex(regex, cid.f)) || (spec.e == "")`.  A pattern that failed to compile left a nil
+regex; `matchRegex` (repair of finding F13, commit e35b228) makes it match nothing — before the repair the first
+use dereferenced the nil regex and panicked.  `res` gives the compiled regex of every field (`compileRegexes`). -/
 def conjunctR (res : Fld → PR RE) (spec cid : CodeId) (t : Fld × Fld × Fld) : Outcome :=
   match res t.1 with
   | .ok re => .val (search re (cid.get t.2.1).toList || (spec.get t.2.2 == ""))
-  | .error .invalid => .panic
+  | .error .invalid => .val (spec.get t.2.2 == "")
   | .error .unsupported => .unsupported
 
 /-- left-to-right `&&` with short-circuit -/
